@@ -8,7 +8,7 @@
 (* depth.  TLC checks that the relation PrettyRelated is reflexive on each *)
 (* (what is allowed includes "add nothing") and prints it as a JSON forest.*)
 (***************************************************************************)
-EXTENDS XotSerial, TLC, Json
+EXTENDS XotPrettyL2, TLC, Json
 
 CONSTANT Dump
 
@@ -43,5 +43,7 @@ Spec == Init /\ [][Next]_F
 
 InDomainAlways == StructValidCore(F.n) /\ Representable(F.n, 1) /\ Usable(F.n, 1)
 PrettyReflexive == \A sup \in {{}, {<<"", "a">>}, {<<"", "r">>}} : PrettyRelated(F.n, 1, F.n, 1, sup)
+\* the transcribed stack machine only writes white space where C14 allows it
+PrettyL2Refines == \A sup \in {{}, {<<"", "a">>}, {<<"", "r">>}} : L2RefinesL1(F.n, 1, sup) /\ L2RefinesL1(F.n, 2, sup)
 DumpState == Dump => PrintT("STATE " \o ToJson(F))
 =============================================================================
